@@ -12,6 +12,9 @@ pub mod c08;
 pub mod c09;
 pub mod c11;
 pub mod c13;
+pub mod c14;
+pub mod c15;
+pub mod c16;
 pub mod c17;
 pub mod c18;
 pub mod c19;
@@ -37,6 +40,10 @@ pub mod c38;
 pub mod c39;
 pub mod c40;
 pub mod metaconc;
+pub mod sched;
+
+
+
 
 
 #[cfg(feature = "vo_bit")]
@@ -84,6 +91,9 @@ pub fn run(id: &str, run: &mut Run) {
         "C31" => c31::run(run),
         "C09" => c09::run(run),
         "C28" => c28::run(run),
+        "C14" => c14::run(run),
+        "C15" => c15::run(run),
+        "C16" => c16::run(run),
         _ => machinery_failure(&format!("no check for property {}", id)),
     }
 }
@@ -127,6 +137,9 @@ pub fn replay(id: &str, case: &Value, run: &mut Run) {
         "C31" => c31::replay(case, run),
         "C09" => c09::replay(case, run),
         "C28" => c28::replay(case, run),
+        "C14" => c14::replay(case, run),
+        "C15" => c15::replay(case, run),
+        "C16" => c16::replay(case, run),
         _ => machinery_failure(&format!("no replay for property {}", id)),
     }
 }
@@ -152,6 +165,9 @@ pub fn child(id: &str, args: &[String]) {
         "C31" => c31::child(args),
         "C09" => c09::child(args),
         "C28" => c28::child(args),
+        "C14" => c14::child(args),
+        "C15" => c15::child(args),
+        "C16" => c16::child(args),
         _ => machinery_failure(&format!("no child mode for property {}", id)),
     }
 }
